@@ -1,4 +1,5 @@
 import Cgm.Lemmas.AuditCmd
 import Cgm.Props.C10
 import Cgm.Props.C10b
+import Cgm.Props.C10c
 #audit_namespace Cg.C10
